@@ -14,6 +14,7 @@ import (
 	"fmt"
 	"os"
 	"path"
+	"runtime"
 	"sort"
 	"strings"
 	"sync"
@@ -125,14 +126,29 @@ func (f *faultyKV) Remove(k string) error {
 	return f.Base.Remove(k)
 }
 
-// hookStep is a step of an operator that tells the harness when the controller looks at it: the second time IsFinish is
-// called after arming (the first call is pollNeedDispatchRegion's Operator.Check, the second one Dispatch's), the
-// callback runs - in the middle of a PushOperators round. SendScheduleCommand does not know the type and sends nothing,
+// hookStep is a step of an operator that tells the harness when the controller looks at it: the first time IsFinish is
+// called from Dispatch after arming (not from pollNeedDispatchRegion, which holds the controller's lock), the callback
+// runs - in the middle of a PushOperators round. SendScheduleCommand does not know the type and sends nothing,
 // as for the passive merge step it wraps.
 type hookCtl struct {
 	armed bool
 	count int
 	fire  func()
+}
+
+func calledFrom(fn string) bool {
+	pcs := make([]uintptr, 32)
+	n := runtime.Callers(2, pcs)
+	frames := runtime.CallersFrames(pcs[:n])
+	for {
+		f, more := frames.Next()
+		if strings.HasSuffix(f.Function, fn) {
+			return true
+		}
+		if !more {
+			return false
+		}
+	}
 }
 type hookStep struct {
 	operator.OpStep
@@ -140,12 +156,9 @@ type hookStep struct {
 }
 
 func (h hookStep) IsFinish(r *core.RegionInfo) bool {
-	if h.ctl.armed {
-		h.ctl.count++
-		if h.ctl.count == 2 {
-			h.ctl.armed = false
-			h.ctl.fire()
-		}
+	if h.ctl.armed && calledFrom("(*OperatorController).Dispatch") {
+		h.ctl.armed = false
+		h.ctl.fire()
 	}
 	return h.OpStep.IsFinish(r)
 }
